@@ -225,6 +225,11 @@ class PosInterp:
         return None
 
     def call_value(self, f: Any, args: list, kwargs: dict, node: ast.AST) -> Any:
+        if type(f).__name__ in ('builtin_function_or_method', 'builtin_method', 'method', 'method-wrapper') and (isinstance(getattr(f, '__self__', None), str) or type(getattr(f, '__self__', None)).__name__ in ('Decimal', 'Pattern', 'Match')):
+            try:
+                return f(*args, **kwargs)
+            except (TypeError, ValueError) as ex:
+                raise Raised(f'{type(ex).__name__}: {ex}')
         if isinstance(f, Bound):
             return self.call_function(f.fn, [f.recv] + args, kwargs)
         if isinstance(f, FuncInfo):
@@ -241,6 +246,10 @@ class PosInterp:
             return self.expr(f.node.body, en)
         if isinstance(f, Builtin):
             n = f.name
+            if n in ('operator.imul', 'operator.mul', 'operator.itruediv', 'operator.truediv', 'operator.neg', 'operator.pos'):
+                if n in ('operator.neg', 'operator.pos'):
+                    return self.binop(ast.Sub(), 0, args[0], node) if n == 'operator.neg' else args[0]
+                return self.binop(ast.Mult() if 'mul' in n else ast.Div(), args[0], args[1], node)
             if n in ('operator.iadd', 'operator.add', 'operator.isub', 'operator.sub'):
                 a_, b_ = args
                 if isinstance(a_, Obj):
@@ -262,6 +271,19 @@ class PosInterp:
                 for x_ in items_:
                     acc_ = self.call_value(fn_, [acc_, x_], {}, node)
                 return acc_
+            if n == 'map':
+                seqs = [self.iter_of(a_, node) for a_ in args[1:]]
+                return [self.call_value(args[0], list(xs), {}, node) for xs in zip(*seqs)]
+            if n == 'filter':
+                return [x_ for x_ in self.iter_of(args[1], node) if (self.truth(self.call_value(args[0], [x_], {}, node), node) if args[0] is not None else self.truth(x_, node))]
+            if n == 'operator.attrgetter':
+                if len(args) != 1 or not isinstance(args[0], str):
+                    raise self.err(node, 'operator.attrgetter with several names')
+                return _Lambda(ast.parse(f'lambda o: o.{args[0]}', mode='eval').body, {})
+            if n == 'operator.itemgetter':
+                if len(args) != 1:
+                    raise self.err(node, 'operator.itemgetter with several keys')
+                return _Lambda(ast.parse(f'lambda o: o[{args[0]!r}]', mode='eval').body, {})
             if n == 'itertools.count':
                 return _Counter(args[0] if args else 0)
             if n == 'next' and args and isinstance(args[0], _Counter):
@@ -476,7 +498,10 @@ class PosInterp:
             raise _Break()
         elif isinstance(st, ast.Continue):
             raise _Continue()
-        elif isinstance(st, (ast.Pass, ast.Assert)):
+        elif isinstance(st, ast.Assert):
+            if isinstance(st.test, ast.Constant) and not st.test.value:
+                raise Raised('AssertionError')
+        elif isinstance(st, ast.Pass):
             pass
         elif isinstance(st, ast.Delete):
             for t in st.targets:
@@ -496,7 +521,7 @@ class PosInterp:
             raise self.err(st, 'statement')
 
     def iter_of(self, v: Any, node: ast.AST) -> list:
-        if isinstance(v, (list, tuple, range)):
+        if isinstance(v, (list, tuple, range)) or type(v).__name__ == 'callable_iterator':
             return list(v)
         if isinstance(v, dict):
             return list(v)
@@ -607,6 +632,23 @@ class PosInterp:
         raise self.err(node, f'truth value of {v!r}')
 
     def binop(self, op: ast.operator, a: Any, b: Any, node: ast.AST) -> Any:
+        import fractions
+        if isinstance(a, fractions.Fraction) or isinstance(b, fractions.Fraction):
+            # exact rational stand-ins for decimal values
+            if not all(isinstance(x, (int, fractions.Fraction)) and not isinstance(x, bool) for x in (a, b)):
+                raise self.err(node, 'arithmetic between a number and something else')
+            try:
+                if isinstance(op, ast.Add):
+                    return a + b
+                if isinstance(op, ast.Sub):
+                    return a - b
+                if isinstance(op, ast.Mult):
+                    return a * b
+                if isinstance(op, ast.Div):
+                    return fractions.Fraction(a) / b
+            except ZeroDivisionError:
+                raise Raised('ZeroDivisionError')
+            raise self.err(node, 'operator on numbers')
         if isinstance(op, ast.Add):
             if isinstance(a, Obj):
                 m = self.method(a.cls, '__add__')
@@ -659,7 +701,7 @@ class PosInterp:
                 return env[e.id]
             if e.id in ('Position', '_StoreHandle', '_StoreBlock', 'TokenStore'):
                 return ClassRef(e.id)
-            if e.id in ('len', 'range', 'slice', 'enumerate', 'list', 'isinstance', 'max', 'min', 'bool', 'abs', 'next', 'reversed', 'tuple', 'str', 'int', 'dict', 'iter', 'any', 'all', 'sorted', 'zip', 'sum', 'set', 'frozenset', 'id', 'repr'):
+            if e.id in ('len', 'range', 'slice', 'map', 'filter', 'enumerate', 'list', 'isinstance', 'max', 'min', 'bool', 'abs', 'next', 'reversed', 'tuple', 'str', 'int', 'dict', 'iter', 'any', 'all', 'sorted', 'zip', 'sum', 'set', 'frozenset', 'id', 'repr'):
                 return Builtin(e.id)
             if e.id == 'NotImplemented':
                 return 'NotImplemented'
@@ -668,10 +710,21 @@ class PosInterp:
                 return fn
             for st in self.mod.tree.body:
                 if isinstance(st, ast.Assign) and len(st.targets) == 1 and isinstance(st.targets[0], ast.Name) and st.targets[0].id == e.id:
+                    v_ = st.value
+                    if isinstance(v_, ast.Call) and norm(v_.func) == 're.compile' and v_.args and isinstance(v_.args[0], ast.Constant) \
+                            and isinstance(v_.args[0].value, str):
+                        import re as _re
+                        fl_ = 0
+                        for a_ in v_.args[1:] + [k.value for k in v_.keywords]:
+                            for part in norm(a_).split('|'):
+                                fl_ |= getattr(_re, part.strip().rsplit('.', 1)[-1], 0)
+                        return _re.compile(v_.args[0].value, fl_)
                     return self.expr(st.value, {})          # module constant (_LOAD_FACTOR and friends)
             raise self.err(e, 'name')
         if isinstance(e, ast.Attribute):
             if norm(e) in ('copy.copy', 'itertools.accumulate', 'itertools.chain', 'itertools.count', 'itertools.groupby', 'functools.reduce',
+                           'operator.attrgetter', 'operator.itemgetter', 'operator.imul', 'operator.mul', 'operator.itruediv', 'operator.truediv',
+                           'operator.neg', 'operator.pos',
                            'operator.iadd', 'operator.add', 'operator.isub', 'operator.sub'):
                 return Builtin(norm(e))
             base = self.expr(e.value, env)
@@ -688,7 +741,20 @@ class PosInterp:
                     return Bound(base, m) if m.kind == 'classmethod' else m
             if isinstance(base, (range, slice)) and e.attr in ('start', 'stop', 'step'):
                 return getattr(base, e.attr)
-            if isinstance(base, list) and e.attr in ('append', 'extend', 'pop', 'reverse', 'insert', 'clear', 'copy', 'index', 'remove'):
+            if type(base).__name__ == 'Pattern' and e.attr in ('findall', 'finditer', 'fullmatch', 'match', 'search', 'split', 'sub', 'pattern', 'flags'):
+                return getattr(base, e.attr)          # a compiled pattern constant applied to a concrete text (stdlib re: trusted)
+            if type(base).__name__ == 'Match' and e.attr in ('group', 'groups', 'start', 'end', 'span', 'groupdict', 'lastindex'):
+                return getattr(base, e.attr)
+            if type(base).__name__ == 'Decimal' and e.attr in ('as_tuple', 'normalize', 'copy_abs', 'copy_negate', 'is_zero', 'is_signed', 'adjusted',
+                                                                  'quantize', 'to_integral_value', 'is_finite', 'is_nan'):
+                return getattr(base, e.attr)          # a method of a concrete decimal: pure
+            if type(base).__name__ == 'DecimalTuple' and e.attr in ('sign', 'digits', 'exponent'):
+                return getattr(base, e.attr)
+            if isinstance(base, str) and e.attr in ('strip', 'lstrip', 'rstrip', 'startswith', 'endswith', 'removeprefix', 'removesuffix', 'split',
+                                                    'upper', 'lower', 'replace', 'isspace', 'join', 'splitlines', 'partition', 'rpartition', 'find',
+                                                    'rfind', 'count', 'isdigit'):
+                return getattr(base, e.attr)          # a method of a concrete text: pure
+            if isinstance(base, list) and e.attr in ('append', 'extend', 'pop', 'reverse', 'insert', 'clear', 'copy', 'index', 'remove', 'discard', 'add'):
                 return _ListAppend(base, e.attr)
             if isinstance(base, dict) and e.attr in ('get', 'items', 'keys', 'values', 'pop', 'setdefault'):
                 return _DictMethod(base, e.attr)
@@ -724,7 +790,12 @@ class PosInterp:
             if isinstance(e.op, ast.Not):
                 return not self.truth(v, e.operand)
             if isinstance(e.op, ast.USub):
+                import fractions
+                if isinstance(v, fractions.Fraction):
+                    return -v
                 return mul(v, -1)
+            if isinstance(e.op, ast.UAdd):
+                return v
             raise self.err(e, 'unary operator')
         if isinstance(e, ast.BoolOp):
             v: Any = None
@@ -810,6 +881,14 @@ class PosInterp:
                     f.lst.append(args[0])
                 elif f.how == 'pop':
                     return f.lst.pop(*args)
+                elif f.how == 'discard':              # a set modelled as a list without duplicates
+                    for i_, x_ in enumerate(f.lst):
+                        if x_ is args[0] or (not isinstance(x_, Obj) and x_ == args[0]):
+                            del f.lst[i_]
+                            break
+                elif f.how == 'add':
+                    if not any(x_ is args[0] or (not isinstance(x_, Obj) and x_ == args[0]) for x_ in f.lst):
+                        f.lst.append(args[0])
                 elif f.how == 'reverse':
                     f.lst.reverse()
                 elif f.how == 'insert':
